@@ -190,6 +190,13 @@ class DestFeeder:
             ce = ("pdu", eof(self.h, cond, ref_checksum(c.cks, c.data[:k]), k,
                              floc=rng.choice(("-", c.sid))))
             seqn.insert(rng.randrange(len(seqn) + 1), ce)
+        if not self.grid_only and not self.honest and rng.chance(0.12):
+            # an empty File Data PDU beyond the data (progress ahead of what the file holds), and the EOF
+            # announces that size: the checksum is then verified over more bytes than the file has
+            ob = n + rng.randrange(1, 9)
+            k = seqn.index(e)
+            seqn[k] = e = ("pdu", eof(self.h, 0, cks, ob))
+            seqn.insert(rng.randrange(0, k + 1), ("pdu", fd(self.h, ob, b"")))
         if not self.grid_only and not self.honest and rng.chance(0.08):
             bad = bytes([cks[0] ^ 1]) + cks[1:]
             seqn.insert(rng.randrange(len(seqn) + 1), ("pdu", eof(self.h, 0, bad, n + rng.randrange(-1, 2) if n else 0)))
@@ -300,7 +307,7 @@ def dest_session(rng: Rng, grid_only: bool = False, fs_kind: str = "mem", n_tx: 
 # ------------------------------------------------------------------ source sessions
 def source_session(rng: Rng, fs_kind: str = "mem", cfg: Cfg | None = None, well_behaved: bool = False,
                    n_tx: int | None = None, always_drain: bool = False, quiet: bool = False,
-                   reconf: float = 0.0, vary_file: float = 0.0) -> Session:
+                   reconf: float = 0.0, vary_file: float = 0.0, fho: float = 0.0) -> Session:
     c = cfg or rand_cfg(rng)
     if cfg is None and not well_behaved:
         c.faults_s = rand_fault_table(rng, ["POSITIVE_ACK_LIMIT_REACHED", "CHECK_LIMIT_REACHED",
@@ -324,7 +331,11 @@ def source_session(rng: Rng, fs_kind: str = "mem", cfg: Cfg | None = None, well_
             s.do(f"put S dest={c.did} src=/missing.bin dst=/x mode=- closure=- msgs=-")
         if not well_behaved and 0.08 <= r < 0.14:
             s.do(f"put S dest=99/{c.did.split('/')[1]} src={c.src_path} dst=/x mode=- closure=- msgs=-")
-        st = s.do(c.put_line())
+        put = c.put_line()
+        if fho and rng.chance(fho):
+            # the request carries fault handler override options naming other handler codes than the table
+            put += " fho=" + ",".join(f"{cc}:{rng.choice(FH)}" for cc in rng.sample(SRC_CONDS, rng.randrange(1, 4)))
+        st = s.do(put)
         if st.ret != "true":
             continue
         if not well_behaved and not c.metadata_only and rng.chance(0.04):
